@@ -13,6 +13,7 @@
   (`render ls` = every label followed by '.', the root is "."); `labelSuffix dl nl` is the
   specification "dl is nl or an ancestor of nl, labels compared under ASCII case folding".
 -/
+import NV.Gen.PkgState
 import NV.Model.Forwarder
 import NV.Lemmas.Forwarder
 import NV.Gen.Run
@@ -251,5 +252,12 @@ example : (∀ r ∈ [([[99,111,114,112]], 7)], r.1 ≠ [] ∧ WF r.1) := by
   intro r hr; simp at hr; subst hr
   refine ⟨by simp, ?_⟩
   intro l hl; simp at hl; subst hl; decide
+
+/-- **regenerated (no hidden state between exchanges)**, as `NV.C03.gen_no_hidden_process_state`: no package-level variable of
+the query-path packages is written after initialisation except the root-certificate pool — the upstream a query reaches is decided by the rule list and the chosen resolver alone. -/
+theorem gen_no_hidden_process_state :
+    (Gen.PkgState.table.all fun r =>
+      r.2.2.isEmpty || (r.1 == "resolver/endpoint" && (r.2.1 == "rootCAInit" || r.2.1 == "rootCAs"))) = true := by
+  decide
 
 end NV.C10
